@@ -1,7 +1,7 @@
 (* Executable SipHash-2-4 (64-bit output) over byte lists, mirroring
    github.com/aead/siphash Sum64 (genericCore / genericFinalize64): every 64-bit
    addition and rotation has its wrap written out.  Validated against the
-   reference vectors of the SipHash paper (Gcs/SipHashVectors in GcsProofs) and
+   64 reference vectors of the SipHash reference implementation (Gcs/SipHashVectors.v) and
    against the Go implementation on every run (Run_C13, case [Sip]). *)
 From BU Require Import Lib.Bytes.
 
